@@ -179,6 +179,33 @@ GQuant(g) == { g.f[i][1] : i \in 1..Len(g.f) }
 Rescaled(x, c, ax) == [q \in DOMAIN x |-> RMul(x[q], RPow(c, GDim(q)[ax]))]
 GroupInvariant(g, x, c, ax) == REq(GroupVal(g.f, x), GroupVal(g.f, Rescaled(x, c, ax)))
 
+(* Two exact sub-models in which the exponents 1 and 2 are theorems, checked by    *)
+(* TLC for integer c: the forced constraint pass (max-plus, eps scaled with the    *)
+(* times) and the moments of a discrete posterior on a grid t_i = i*g whose        *)
+(* weights depend on dimensionless arguments only.                                 *)
+RECURSIVE Forced(_, _, _)
+Forced(es, t, eps) ==
+    IF es = <<>> THEN t
+    ELSE LET p == Head(es)[1]  c == Head(es)[2]
+         IN  Forced(Tail(es), IF t[c] + eps > t[p] THEN [t EXCEPT ![p] = t[c] + eps] ELSE t, eps)
+DAGs == { <<<<2, 1>>, <<3, 2>>>>, <<<<3, 1>>, <<3, 2>>>>, <<<<2, 1>>, <<3, 1>>, <<3, 2>>>> }
+IntCs == {2, 3}
+ConstrainScales ==
+    \A es \in DAGs, m \in [1..3 -> 0..2], eps \in {0, 1}, c \in IntCs :
+        Forced(es, [i \in 1..3 |-> c * m[i]], c * eps) = [i \in 1..3 |-> c * Forced(es, m, eps)[i]]
+
+Grid == 1..3
+Weights == { w \in [Grid -> 0..2] : \E i \in Grid : w[i] > 0 }
+S0(w) == w[1] + w[2] + w[3]
+S1(w, g) == w[1] * g + w[2] * 2 * g + w[3] * 3 * g
+S2(w, g) == w[1] * g * g + w[2] * 4 * g * g + w[3] * 9 * g * g
+(* mean = S1 / S0, variance = (S0 * S2 - S1^2) / S0^2 *)
+MomentsScale ==
+    \A w \in Weights, g \in Vals, c \in IntCs :
+        /\ S1(w, c * g) = c * S1(w, g)
+        /\ S0(w) * S2(w, c * g) - S1(w, c * g) * S1(w, c * g)
+             = c * c * (S0(w) * S2(w, g) - S1(w, g) * S1(w, g))
+
 (* ------------------------------------------------------------------------------ *)
 (* state                                                                          *)
 (* ------------------------------------------------------------------------------ *)
